@@ -595,7 +595,7 @@ def _check_remove_shape(a: A, o, f, owner_prop, live_ok: bool):
     ev = _single_store(a, o, f, owner_prop, what)
     if ev is None:
         return
-    if not a.is_owner(f, ev.node.value):
+    if not a.is_owner(f, a.xp(f, ev.node.value, ev.cn)):
         o.refute(f, ev.stmt, ev.node, f"{what}: assigns `{src(ev.node)}`; the documented primitive is the `{owner_prop}` "
                                       f"assignment of the facade's owner")
         return
@@ -683,7 +683,7 @@ def delegation_children(a: A, ctx):
         ev = _single_store(a, o, f, 'parent', '_ChildrenList.append')
         if ev is not None:
             aug, v, st = _store_value(a, f, ev)
-            if not a.is_param(f, ev.node.value, 1):
+            if not a.is_param(f, a.xp(f, ev.node.value, ev.cn), 1):
                 o.refute(f, st, ev.node, f"append: re-parents `{src(ev.node.value)}` instead of the appended task")
             elif aug or not a.is_owner(f, v):
                 o.refute(f, st, st, f"append: the task's parent becomes `{src(v)}`; documented: the owner of the list")
@@ -727,7 +727,7 @@ def delegation_links(a: A, ctx):
 
 def _link_append(a: A, o, f, ev, rel, t, what):
     aug, v, st = _store_value(a, f, ev)
-    if not a.is_owner(f, ev.node.value):
+    if not a.is_owner(f, a.xp(f, ev.node.value, ev.cn)):
         o.refute(f, st, ev.node, f"{what}: assigns `{src(ev.node)}` instead of the owner's `{rel}`")
         return
 
@@ -807,7 +807,7 @@ def _returns_param(a: A, o, f, i, what):
 def _rel_plus_other(a: A, o, f, ev, recv_ok, rel, other_i, what):
     """`R.rel += other`  or  `R.rel = R.rel + other` / `R.rel.__add__(other)`  (old items first)"""
     aug, v, st = _store_value(a, f, ev)
-    if not recv_ok(ev.node.value):
+    if not recv_ok(a.xp(f, ev.node.value, ev.cn)):
         o.refute(f, st, ev.node, f"{what}: assigns `{src(ev.node)}`; documented receiver differs")
         return False
     if aug:
@@ -976,7 +976,7 @@ def delegation_wbs(a: A, ctx):
         ev = _single_store(a, o, f, 'children', what)
         if ev is not None:
             aug, v, st = _store_value(a, f, ev)
-            if not a.is_self_attr(f, ev.node.value, ROOT):
+            if not a.is_self_attr(f, a.xp(f, ev.node.value, ev.cn), ROOT):
                 o.refute(f, st, ev.node, f"{what}: assigns `{src(ev.node)}` instead of the sentinel's children")
             elif aug:
                 o.refute(f, st, st, f"{what}: adds to the roots instead of replacing them")
@@ -1064,7 +1064,8 @@ def delegation_wbs(a: A, ctx):
             for r in returns_of(f):
                 if const_of(r.value) is True:
                     conds = cfg_of(f).conditions(cfg_of(f).node_of(r))
-                    good = any(pol and any(any(x is e.node for x in ast.walk(t)) for e in direct + rec) for t, pol in conds)
+                    good = any(pol and any(any(x is e.node for x in ast.walk(resolve(f, t, cfg_of(f).node_containing(t))[0]))
+                                           for e in direct + rec) for t, pol in conds)
                     if not good:
                         o.refute(f, r, r, f"{what}: returns True without a successful removal")
                         ok = False
@@ -1164,19 +1165,43 @@ def delegation_remove_all(a: A, ctx):
                 continue
             # returns: the matches (or an empty list when the query is empty)
             bad = False
+            noops = []
+
+            def is_query(x, at_node):
+                r0 = resolve(f, x, at_node)[0]
+                return isinstance(r0, ast.Call) and same(r0, it)
+
+            def says_empty(at, pol, tst):
+                n0 = cfg.node_containing(tst)
+                if is_query(at, n0):
+                    return not pol
+                m = match("len($q)", at)
+                if m and is_query(m['q'], n0):
+                    return not pol
+                for pat, when in (("len($q) == 0", True), ("len($q) != 0", False), ("len($q) > 0", False), ("len($q) >= 1", False),
+                                  ("len($q) < 1", True), ("0 == len($q)", True), ("0 < len($q)", False)):
+                    m = match(pat, at)
+                    if m and is_query(m['q'], n0):
+                        return pol == when
+                return False
             for r in returns_of(f):
-                v, vn, _ = resolve(f, r.value, cfg.node_of(r)) if r.value is not None else (None, None, 0)
+                rn = cfg.node_of(r)
+                v, vn, _ = resolve(f, r.value, rn) if r.value is not None else (None, None, 0)
                 if v is not None and vn is itn and same(v, it):
                     continue
-                if v is not None and match("_ImmutableTaskList([])", v):
-                    atoms = path_atoms(a, f, cfg.node_of(r))
-                    if any(not pol and isinstance(resolve(f, at, cfg.node_containing(tst))[0], ast.Call) and
-                           same(resolve(f, at, cfg.node_containing(tst))[0], it) for at, pol, tst in
-                           [(t0, p0, t0x) for (t0, p0, t0x) in _raw_atoms(f, cfg.node_of(r))]):
+                if v is not None and (match("_ImmutableTaskList([])", v) or match("[]", v) or match("_ImmutableTaskList(list())", v)):
+                    if any(says_empty(at, pol, tst) for at, pol, tst in _raw_atoms(f, rn)):
+                        noops.append(rn)
                         continue
-                o.refute(f, r, r, f"{what}: returns `{src(r.value) if r.value is not None else None}` instead of the removed tasks")
+                    if any(cfg.can_reach(e.cn, rn) for e in rem):
+                        o.refute(f, r, r, f"{what}: returns an empty list after removing the matches; documented: the removed tasks")
+                    else:
+                        o.undecided(f, r, r, f"{what}: returns an empty list on a path the rule cannot tie to an empty query result")
+                    bad = True
+                    continue
+                o.refute(f, r, r, f"{what}: returns `{src(r.value) if r.value is not None else None}` instead of the removed tasks "
+                                  f"(all matches of the query)")
                 bad = True
-            noops = [cfg.node_of(r) for r in returns_of(f) if r.value is not None and match("_ImmutableTaskList([])", r.value)]
             if not bad and a.must_pass(o, f, rem, noops, what) and a.leftovers(o, f, what) == 0:
                 o.site(f, rem[0].node, f"for {src(fo.target)} in {src(it)}: {src(rem[0].node)}")
             else:
@@ -1469,7 +1494,7 @@ def dependency_setters(a: A, ctx):
                 bad = True
             elif t[0] == 'filter' and not t[3] and is_arg(a, f, t[1], vn):
                 pass
-            elif match("_to_list($x)", v) and is_arg(a, f, v, vn) and a.eff.returns_fresh(a.fn('task._to_list')):
+            elif match("_to_list($x)", v) and is_arg(a, f, v, vn) and _builds_new_list(a.fn('task._to_list')):
                 pass        # _to_list builds a new list on every path: storing it is storing a private copy
             elif is_arg(a, f, v, vn):
                 o.refute(f, st, st.value, f"{what}: stores the caller's list object itself (no copy): later edits of that list by the "
@@ -1595,6 +1620,13 @@ def dependency_setters(a: A, ctx):
                 o.site(f, add_ok[0].node, 'new elements: ' + src(add_ok[0].node))
             a.leftovers(o, f, what)
     ctx.guarded(o, run)
+
+
+def _builds_new_list(fn) -> bool:
+    """every return of fn yields a list object created by that very expression (literal, comprehension, list(..))"""
+    rets = returns_of(fn)
+    return bool(rets) and all(r.value is not None and (isinstance(r.value, (ast.List, ast.ListComp)) or match("list($x)", r.value))
+                              for r in rets)
 
 
 def _mirror_conditions(a: A, f, inner, v, MIR, want_present, e):
@@ -2135,12 +2167,11 @@ def sort_stable(a: A, ctx):
             if w.kind == 'store' and isinstance(w.node, ast.Assign):
                 v = a.xp(f, w.node.value, e.cn)
                 call = v
-                if isinstance(v, ast.Call) and isinstance(v.func, ast.Name) and v.func.id in ('list', 'reversed') and v.args and \
-                        any(isinstance(n, ast.Call) and getattr(n.func, 'id', '') in ('reversed',) for n in ast.walk(v)):
+                if any(isinstance(n, ast.Call) and getattr(n.func, 'id', '') == 'reversed' for n in ast.walk(v)):
                     o.refute(f, w.node, w.node.value, f"{what}: `reversed(...)` of a sorted list is not a stable descending sort")
                     bad = True
                     continue
-                if isinstance(v, ast.Subscript) and isinstance(v.slice, ast.Slice) and v.slice.step is not None:
+                if any(isinstance(n, ast.Subscript) and isinstance(n.slice, ast.Slice) and n.slice.step is not None for n in ast.walk(v)):
                     o.refute(f, w.node, w.node.value, f"{what}: slicing the sorted list backwards is not a stable descending sort")
                     bad = True
                     continue
@@ -2512,7 +2543,7 @@ def insert_index(a: A, ctx):
         at_ev.used = True
         if at_ev.kind == 'setter':
             aug, v, st = _store_value(a, f, at_ev)
-            if aug or not a.is_param(f, at_ev.node.value, 2) or not a.is_owner(f, v):
+            if aug or not a.is_param(f, a.xp(f, at_ev.node.value, at_ev.cn), 2) or not a.is_owner(f, v):
                 o.refute(f, st, st, f"{what}: `{src(st)}` is not `task.parent = owner of the list`")
                 return
         else:
@@ -2592,6 +2623,10 @@ def insert_index(a: A, ctx):
         cmp_ = None
         if isinstance(test, ast.Compare) and len(test.ops) == 1:
             l, op, r = test.left, test.ops[0], test.comparators[0]
+            if isinstance(l, ast.Name) and l.id != IDX:
+                l = resolve(f, l, an_n)[0]
+            if isinstance(r, ast.Name) and r.id != IDX:
+                r = resolve(f, r, an_n)[0]
             FLIP = {ast.Lt: ast.Gt, ast.Gt: ast.Lt, ast.LtE: ast.GtE, ast.GtE: ast.LtE}
             if match("len($l)", l) and type(op) in FLIP:
                 l, r, op = r, l, FLIP[type(op)]()
